@@ -72,6 +72,8 @@ class Grid:
                 f"New shape: {value.shape}, Old shape: {self._points.shape}."
             )
         self._points = value
+        # the neighbour tree was built from the old points
+        self._kdtree = None
 
     @property
     def weights(self):
